@@ -76,6 +76,7 @@ func (s *TcpServer) serve(ln net.Listener) {
 			}
 			return
 		}
+		verifSchedServer("serve.accepted", s)
 
 		// check if we should exit
 		if s.testShouldExit() {
